@@ -145,7 +145,7 @@ func propC05(r *kernel.Run) {
 		if tp.Draw(3) == 0 {
 			stateSigner = nonceSigner
 		}
-		nodeIDHint := Pick2(tp, "", "node-N", "node-N2", "node-unknown", "node") // "node-N" is a prefix of "node-N2", "node" of both: a node ID is a whole name
+		nodeIDHint := Pick2(tp, "", "node-N", "node-N2", "node-unknown", "node", "node-N ", "\nnode-N", " ", "node-N\x00", "NODE-N") // "node-N" is a prefix of "node-N2", "node" of both: a node ID is a whole name
 		withState := tp.Draw(2) == 0
 		local := tp.Draw(10) == 0 // the local caller marks the request as a credential fetch
 
@@ -170,6 +170,18 @@ func propC05(r *kernel.Run) {
 				req.NonceSignature[tp.Draw(64)] ^= 1 << tp.Draw(8) // forged
 				nonceSigner = nil
 			}
+		}
+		if nonceSigner != nil && tp.Draw(12) == 0 {
+			// the signature covers a nonce, but not the one in the request: the request's nonce goes on after the signed part
+			// (or is only its beginning)
+			if tp.Draw(3) > 0 {
+				nonce = append(append([]byte{}, nonce...), tp.Bytes(tp.Range(1, 40))...)
+			} else {
+				nonce = nonce[:tp.Range(1, len(nonce)-1)]
+			}
+			req.Nonce = nonce
+			nonceSigner = nil
+			r.Count("cfg.signature_over_other_length_of_nonce", 1)
 		}
 		claimKid := claim.KeyId
 		var stateBytes []byte
